@@ -1377,6 +1377,8 @@ def norm(t):
         return merged[0] if len(merged) == 1 else ('concat', tuple(merged))
     if k == 'zip':
         parts = _splice(t[1])
+        # iterating a dict is iterating its keys
+        parts = [call(('attr', p_, 'keys')) if (p_[0] == 'dict' or (p_[0] == 'call' and p_[1] == G('dict'))) else p_ for p_ in parts]
         # zip(range(len(D)), X) == enumerate(X)  when X is D or a view of the dict D
         if len(parts) == 2 and parts[0][0] == 'call' and parts[0][1] == G('range') and len(parts[0][2]) == 1 and not parts[0][3] \
                 and parts[0][2][0][0] == 'call' and parts[0][2][0][1] == G('len') and len(parts[0][2][0][2]) == 1:
@@ -1420,6 +1422,8 @@ def norm(t):
             neg = {'Eq': 'NotEq', 'NotEq': 'Eq', 'Lt': 'GtE', 'GtE': 'Lt', 'Gt': 'LtE', 'LtE': 'Gt', 'In': 'NotIn',
                    'NotIn': 'In', 'Is': 'IsNot', 'IsNot': 'Is'}
             return norm(('cmp', neg[a[1]], a[2], a[3]))
+        if a[0] in ('map', 'filter', 'list', 'concat'):
+            return norm(('cmp', 'Eq', call(G('len'), [a]), C(0)))     # an empty list is false
         return t
     if k == 'if':
         c = t[1]
@@ -1427,6 +1431,9 @@ def norm(t):
             return t[2] if c[1] else t[3]
         if t[2] == t[3]:
             return t[2]
+        if c[0] in ('map', 'filter', 'concat'):
+            # a list used as a test is true iff it is not empty
+            return norm(('if', ('cmp', 'NotEq', call(G('len'), [c]), C(0)), t[2], t[3]))
         # (map(f, A) if c else [])  is  map(f, A if c else [])  (and the mirrored form)
         if t[2][0] == 'map' and t[3] == ('list', ()):
             return ('map', t[2][1], ('if', c, t[2][2], ('list', ())))
@@ -1679,6 +1686,10 @@ def norm_call(fn, args, kw):
             return _lam1(lambda x: apply(f0, pre + [x], kw))
         if g == 'operator.attrgetter' and len(args) == 1 and args[0][0] == 'const' and isinstance(args[0][1], str):
             return _lam1(lambda x: attr(x, *args[0][1].split('.')))
+        if g == 'operator.attrgetter' and len(args) >= 2 and not kw and all(a[0] == 'const' and isinstance(a[1], str) for a in args):
+            return _lam1(lambda x: ('tuple', tuple(attr(x, *a[1].split('.')) for a in args)))
+        if g == 'operator.itemgetter' and len(args) >= 2 and not kw:
+            return _lam1(lambda x: ('tuple', tuple(norm(('sub', x, a)) for a in args)))
         if g == 'operator.methodcaller' and args and args[0][0] == 'const':
             return _lam1(lambda x: norm_call(('attr', x, args[0][1]), args[1:], kw))
         if g == 'operator.itemgetter' and len(args) == 1:
@@ -1745,6 +1756,12 @@ def norm_call(fn, args, kw):
                 return ('flat', args[1])
         if g == 'sum' and len(args) == 2 and args[1] == ('list', ()) and not kw:
             return norm(('flat', args[0]))                  # sum(list_of_lists, []) concatenates
+        if g == 'len' and len(args) == 1 and not kw and args[0][0] == 'map':
+            return norm_call(G('len'), [args[0][2]], [])           # a mapped list is as long as its source
+        if g == 'numpy.full' and len(args) == 2 and not kw and args[1][0] == 'const' and isinstance(args[1][1], float):
+            # numpy.full(shape, c) for a float c is c * numpy.ones(shape) (both float64)
+            return norm(('binop', 'Mult', C(int(args[1][1]) if args[1][1] == int(args[1][1]) else args[1][1]),
+                         call(G('numpy.ones'), [args[0]])))
         if g == 'len' and len(args) == 1 and args[0][0] in ('list', 'tuple') and not any(x[0] == 'star' for x in args[0][1]):
             return C(len(args[0][1]))
         if g == 'dict.get' and len(args) >= 2:
@@ -1810,6 +1827,9 @@ def norm_call(fn, args, kw):
         return call(fn, [args[0]])                     # d.get(k, None) == d.get(k)
     if fn[0] == 'attr':
         o, m = fn[1], fn[2]
+        # X.ravel().tolist() is X.flatten().tolist() (the view / copy difference does not survive tolist())
+        if m == 'tolist' and not args and not kw and o[0] == 'call' and o[1][0] == 'attr' and o[1][2] == 'ravel' and not o[2] and not o[3]:
+            return call(('attr', call(('attr', o[1][1], 'flatten')), 'tolist'))
         # np.array(list of k-tuples).sum(axis=0)  ->  k-tuple of sums
         if m == 'sum' and not args and kw == [('axis', C(0))] and o[0] == 'call' and o[1] == G('numpy.array') \
                 and len(o[2]) == 1 and not o[3]:
@@ -1949,6 +1969,13 @@ def canon(t):
             if op in ('Gt', 'Lt'):
                 p = _padd(p, {(): 1}, -1)
             return ('ge0', _mk_poly(p))
+        if op in ('Eq', 'NotEq') and _is_len(a) and _is_len(b):
+            # a filtered list is at most as long as its source: len(filter(f, X)) == len(X)  <=>  len(filter(f, X)) - len(X) >= 0
+            for short, full in ((a, b), (b, a)):
+                src = _strip_seq(short[2][0])
+                if src[0] == 'filter' and aeq(_strip_seq(src[2]), _strip_seq(full[2][0])):
+                    g = ('ge0', _mk_poly({(short,): 1, (full,): -1}))
+                    return g if op == 'Eq' else canon(_negate_bool(g))
         if op in ('Eq', 'NotEq') and ((_is_len(a) and b == C(0)) or (_is_len(b) and a == C(0))):
             ln = a if _is_len(a) else b
             # len(x) == 0  <=>  -len(x) >= 0 ;  len(x) != 0  <=>  len(x) - 1 >= 0      (a length is non-negative)
@@ -1988,6 +2015,9 @@ def canon(t):
                     return _mk_poly({(('call', G('sum'), (('map', ('lam', m[1][1], inner), m[2]),), ()),): c})
         return t
     if k in ('and', 'or'):
+        if len(t[1]) >= 2 and all(p_[0] == 'ge0' for p_ in t[1]):
+            # integer comparisons are total: their order inside a conjunction / disjunction does not matter
+            return (k, tuple(sorted(t[1], key=_key)))
         return t
     if k == 'if' and t[1][0] != 'const':
         a2, b2 = _assume(t[2], t[1], True), _assume(t[3], t[1], False)
@@ -2002,6 +2032,9 @@ def canon(t):
         c = t[1]
         if c[0] == 'not':
             return ('if', c[1], t[3], t[2])
+        if c[0] == 'or' and all(p_[0] in ('cmp', 'ge0', 'not') for p_ in c[1]):
+            # De Morgan: a disjunctive test is the conjunction of the negations with the branches swapped
+            return canon(('if', ('and', tuple(canon(_negate_bool(p_)) for p_ in c[1])), t[3], t[2]))
         if c[0] == 'cmp' and c[1] in ('NotEq', 'IsNot', 'NotIn'):
             return ('if', ('cmp', {'NotEq': 'Eq', 'IsNot': 'Is', 'NotIn': 'In'}[c[1]], c[2], c[3]), t[3], t[2])
         if c[0] == 'ge0' and _ge0_negative_polarity(c):
@@ -2201,6 +2234,12 @@ def _assume(t, cond, value):
                (equals and y[0] == 'cmp' and y[1] in ('Eq', 'NotEq')) for y in walk(t)):
         return t
     return replace(t, f)
+
+
+def _strip_seq(x):
+    while x[0] == 'call' and x[1] in (G('list'), G('tuple')) and len(x[2]) == 1 and not x[3]:
+        x = x[2][0]
+    return x
 
 
 def _is_len(t):
